@@ -346,6 +346,11 @@ def run(tier):
                     compare(serial, ref, bit=True) is None:
                 # the same algorithm agrees when run serially
                 mech = 'openmp:nnps=%s' % nn
+            elif nn != 'll' and nm.endswith('/cache') and \
+                    serial is not None and \
+                    compare(serial, ref, bit=True) is None:
+                # ... and agrees without the cache
+                mech = 'cache:nnps=%s' % nn
             elif nn != 'll':
                 mech = 'nnps=%s' % nn
             elif '/omp' in nm:
